@@ -25,6 +25,7 @@ type devModel struct {
 	client         string
 	scopes         []string
 	expires        time.Time
+	exact          bool // expires is the instant recorded by the storage
 	approvedBy     string
 	denied         bool
 	tokens         int
@@ -132,7 +133,12 @@ func (d *devWorld) start(ch *kernel.Chooser) string {
 	if dev := w.Store.Devices[da.DeviceCode]; dev != nil && dev.State.ClientID != p.claimedClient() {
 		d.viol("initiating-client", "device_authorization", "%s: the device code was stored for client %q although the request was authenticated as %q", desc, dev.State.ClientID, p.claimedClient())
 	}
-	d.devs = append(d.devs, &devModel{code: da.DeviceCode, userCode: da.UserCode, client: p.claimedClient(), scopes: scopes, expires: time.Now().Add(cfg.Lifetime)})
+	dm := &devModel{code: da.DeviceCode, userCode: da.UserCode, client: p.claimedClient(), scopes: scopes, expires: time.Now().Add(cfg.Lifetime)}
+	if dev := w.Store.Devices[da.DeviceCode]; dev != nil && dev.State != nil {
+		// the instant the provider told the storage: the flow is over after it, to the nanosecond
+		dm.expires, dm.exact = dev.State.Expires, true
+	}
+	d.devs = append(d.devs, dm)
 	return desc + " code=" + short(da.DeviceCode) + " user_code=" + da.UserCode
 }
 
@@ -198,8 +204,16 @@ func (d *devWorld) poll(ch *kernel.Chooser) string {
 			return ""
 		}
 	}
+	if left := time.Until(m.expires); !timeoutFault && m.exact && left > 0 && left < 15*time.Minute && ch.Bool(1, 5) {
+		// the device polls right around the end of the flow's lifetime
+		delta := []time.Duration{-time.Millisecond, 0, time.Millisecond, 300 * time.Millisecond, 999 * time.Millisecond, 1001 * time.Millisecond}[ch.Int(6)]
+		time.Sleep(left + delta)
+		d.o.SimSeconds += (left + delta).Seconds()
+		d.o.Probe("polls-around-the-expiry-instant")
+	}
 	now := time.Now()
 	r := w.PostForm("/oauth/token", url.Values{"grant_type": {string(oidc.GrantTypeDeviceCode)}, "device_code": {code}}, p.creds)
+	after := time.Now()
 	w.Store.Inject = nil
 	desc := fmt.Sprintf("poll %s code of %s by %s (%s) approved=%q denied=%v expired=%v timeout=%v -> %d", codeKind, m.client, caller, p.label, m.approvedBy, m.denied, now.After(m.expires), timeoutFault, statusOf(r))
 	if panicProbe(d.o, r) || r.Err != nil {
@@ -279,7 +293,11 @@ func (d *devWorld) poll(ch *kernel.Chooser) string {
 		want = []string{"access_denied"}
 	case m.approvedBy != "":
 		want = []string{"expired_token", "TOKENS"}
-	case nearExpiry:
+	case m.exact && now.After(m.expires):
+		want = []string{"expired_token"}
+	case m.exact && !after.After(m.expires):
+		want = []string{"authorization_pending"}
+	case m.exact || nearExpiry:
 		want = []string{"expired_token", "authorization_pending"}
 	case now.After(m.expires):
 		want = []string{"expired_token"}
